@@ -23,6 +23,7 @@ ANCHORS = ["decaylanguage.dec.dec:DecFileParser.parse", "decaylanguage.dec.dec:D
            "decaylanguage.dec.dec:get_final_state_particle_names", "decaylanguage.dec.dec:get_model_name", "decaylanguage.dec.dec:get_model_parameters",
            "decaylanguage.dec.dec:DecayModelParamValueReplacement._replacement"]
 WORKERS = {"quick": 4, "thorough": 16}
+WTESTS = {"groups": ['parse'], "tests": ['tests/dec', 'tests/decay/test_viewer.py']}
 REQUIRED = {**{f"char:{c}": 10 for c in L.ALPHABET_EXTRA}, **{f"bf-literal:{f}": 3 for f in ["1", "1.", ".25", "-0.8", "2E-3", "20.e-2", "+0.125"]},
             **{f"param-literal:{f}": 3 for f in ["1", "1.", ".5", "-0.8", "+3", "20.e12", "2E-4"]},
             "models-all-published": 1, "empty-block": 10, "repeated-mother-different-body": 10, "repeated-mother-identical-body": 10,
